@@ -503,7 +503,7 @@ pub mod utils {
                 analysis.max_line_length = line.len();
             }
 
-            if analysis.min_line_length == 0 || line.len() < analysis.min_line_length {
+            if analysis.total_lines == 1 || line.len() < analysis.min_line_length {
                 analysis.min_line_length = line.len();
             }
 
